@@ -111,6 +111,16 @@ def run(ctx):
                             bad("a reservoir whose fields were re-assigned solves a different problem than a freshly built one with the same settings", dict(**inp2, nx=r["nx"]),
                                 dict(field_max_rel_diff=d, flux_recovery_fresh=r["rf"], flux_recovery_reassigned=r2["rf"]))
                             break
+    # ---------------- a refinement study run as a thread pool (one worker per ratio, same node count, different pressures and
+    # horizons): each member must be the simulation it is when run alone, and so converge like it
+    for nx_c in nxs[:2]:
+        nt_c = 4 * nx_c * nx_c // 25 + 10
+        conc = [dict(kind="ideal", pi=8000.0, pf=8000.0 * r_, nx=nx_c, times=np.linspace(0, np.sqrt(T_END * (1 + 0.3 * j_)), nt_c + 7 * j_) ** 2) for j_, r_ in enumerate((0.0125, 0.3, 0.6, 0.9))]
+        conc += [dict(kind="single", table=liquid, pi=float(liquid["pressure"][-2]), pf=float(liquid["pressure"][-2]) * 0.4, nx=nx_c, times=np.linspace(0, np.sqrt(T_END), nt_c) ** 2)]
+        ser = [rescorr.run_impl(c_) for c_ in conc]
+        ev += rescorr.threaded_equals_serial(conc, ser, lambda c_, obs: bad(
+            "a simulation that runs while others run in other threads (own objects, own arrays, same node count) is not the simulation it is when run alone - it does not solve the documented problem",
+            dict(kind=c_["kind"], nx=c_["nx"], nt=len(c_["times"]), p_frac_over_p_initial=c_["pf"] / c_["pi"], simulated="concurrently with 4 other runs, one thread each"), obs), rounds=2, workers=5)
     # ---------------- pressure-dependent diffusivity: independent method-of-lines reference
     tables = [("shipped", rescorr.shipped_gas(stride=6))] + ([] if ctx.quick else [("ideal-gas", rescorr.synth_table("ideal", 80)), ("haynesville", rescorr.shipped_haynesville(stride=8))])
     # the same table with its rows listed by decreasing pressure must give the same answers (the library's lookups sort)
